@@ -223,11 +223,15 @@ CHECKS = {
                 "cloud holds every local backup of every window group; a second run plans nothing. Tied to the code by running "
                 "the real sync_backups (real Storage type, real local directories, mock cloud provider) against the extracted "
                 "model exhaustively over a 3-group universe with faults, plus second runs; the property itself is re-evaluated "
-                "on the implementation's action list by an independent checker.",
+                "on the implementation's action list by an independent checker. End to end: the real `vsb upload` with real gpg "
+                "against the provider emulator (all three providers) on generated local storages, cloud states, limits, create / "
+                "upload faults and stray entries on either side: the actions it logs, its ok state and the cloud namespace afterwards "
+                "must equal the planner model's, and the property is evaluated on what the run did.",
         "note": "Names are numbers in the model (order-isomorphic to date strings). Listing-level inputs (temporaries, unexpected "
-                "entries) enter through the ok flag; the end-to-end path through a provider emulator is not built yet. gpg is a "
-                "pass-through stub in this check.",
-        "technique": "Coq proofs over sorted association lists + exhaustive differential correspondence against the real planner",
+                "entries) enter through the ok flag, which the end-to-end runs read off the tool's own error lines. gpg is a "
+                "pass-through stub in the planner-level part.",
+        "technique": "Coq proofs over sorted association lists + exhaustive differential correspondence against the real planner + "
+                     "end-to-end runs of the real binary against a provider emulator",
         "design": "7/C06",
     },
     "C10": {
